@@ -58,6 +58,8 @@ type Program struct {
 	Features map[string]bool // feature kinds and derived tags present
 	MainDir  string
 	LdFlags  string // value for -ldflags (from ldflags features), "" if none
+	// LdValuesUsed are the injected -X values.
+	LdValuesUsed []string
 }
 
 // Options steer Draw.
@@ -111,6 +113,9 @@ func Draw(t *rapid.T, o Options) Spec {
 	nf := rapid.IntRange(o.MinFeats, o.MaxFeats).Draw(t, "nfeats")
 	for i := 0; i < nf; i++ {
 		kind := rapid.SampledFrom(allowed).Draw(t, fmt.Sprintf("kind%d", i))
+		if n == 1 && catalogue[kind].needs2 {
+			kind = "closure"
+		}
 		f := Feat{Kind: kind}
 		def := catalogue[kind]
 		// provider: prefer a non-main package when there is one
@@ -124,6 +129,12 @@ func Draw(t *rapid.T, o Options) Spec {
 		}
 		if def.provNotMain && n == 1 {
 			f.User, f.Prov = 0, 0
+		}
+		if def.crossOnly && f.User == f.Prov {
+			if f.Prov == 0 {
+				f.Prov = 1
+			}
+			f.User = rapid.IntRange(0, f.Prov-1).Draw(t, fmt.Sprintf("user%db", i))
 		}
 		f.Imp = rapid.SampledFrom([]string{"plain", "plain", "named", "dot"}).Draw(t, fmt.Sprintf("imp%d", i))
 		for j := 0; j < 4; j++ {
@@ -161,7 +172,24 @@ type featDef struct {
 	mayRemain []string
 	// needs marks toolchain needs: "asm", "linkname", "ldflags", "test".
 	needs []string
+	// ldX lists provider variable tokens (e.g. "V1") set through -ldflags=-X.
+	ldX []string
+	// noDashPath: the feature references the provider by its full path from
+	// assembly, which cannot spell paths containing '-'.
+	testMain bool
+	needs2   bool // needs at least two packages (provider must not be main)
+	// reflects: the feature passes its own types to fmt (reflection), so its
+	// names may legitimately survive obfuscation.
+	reflects bool
+	// crossOnly: provider and user must be different packages.
+	crossOnly bool
 }
+
+// CrossOnly reports whether a kind needs distinct provider and user packages.
+func CrossOnly(kind string) bool { return catalogue[kind].crossOnly }
+
+// LdValues are the values injected with -ldflags=-X, indexed by parameters.
+var LdValues = []string{"v1.2.3", "with spaces in it", "", "k=v==", "日本語", "a=b c=d", "c2VjcmV0LWtleS0wMQ==", "http://h/p?q=1&r=2", "-dash", "x"}
 
 var catalogue = map[string]featDef{}
 
@@ -267,7 +295,7 @@ func expand(tmpl string, fi int, f Feat, q string, pkgIdx int, kind string, mayR
 				seen[name] = true
 				exported := letter >= 'A' && letter <= 'Z'
 				*names = append(*names, NameInfo{Name: name, Kind: pk[1], Exported: exported, Pkg: pkgIdx, Feat: kind,
-					MayRemain: may[fmt.Sprintf("%c%d", letter, slot)] || (pk[1] == "method" && exported)})
+					MayRemain: may[fmt.Sprintf("%c%d", letter, slot)] || (pk[1] == "method" && exported) || catalogue[kind].reflects})
 			}
 		}
 	}
@@ -297,6 +325,8 @@ func Render(s Spec) *Program {
 		feat int
 	}
 	var calls []call
+	var ldflags []string
+	hasTestMain := map[int]bool{}
 	usedPkgs := map[int]bool{0: true}
 	for fi, f := range s.Feats {
 		def, ok := catalogue[f.Kind]
@@ -356,17 +386,49 @@ func Render(s Spec) *Program {
 			p.Names = append(p.Names, NameInfo{Name: fmt.Sprintf("use_%s.go", strings.ToLower(mk)), Kind: "file", Pkg: f.User, Feat: f.Kind})
 			p.Files[useFile] = header(user.Name, impLine+extraImp(def.useImports)) + "\n" + useFunc
 		}
-		for name, content := range def.extraProv {
-			fn := expand(name, fi, f, "", f.Prov, f.Kind, nil, &p.Names, seen)
-			body := expand(content, fi, f, "", f.Prov, f.Kind, def.mayRemain, &p.Names, seen)
+		asmPath := strings.NewReplacer("/", "∕", ".", "·").Replace(s.ImportPath(f.Prov))
+		provSym := s.ImportPath(f.Prov)
+		if f.Prov == 0 {
+			asmPath, provSym = "main", "main"
+		}
+		if strings.ContainsAny(asmPath, "-") {
+			// assembly cannot spell such a path: use the unqualified form
+			asmPath = ""
+		}
+		subst := func(body string) string {
 			body = strings.ReplaceAll(body, "@PKGNAME", prov.Name)
 			body = strings.ReplaceAll(body, "@PKGPATH", s.ImportPath(f.Prov))
-			p.Files[fileName(prov.Dir, fn)] = body
+			body = strings.ReplaceAll(body, "@PROVSYM", provSym)
+			body = strings.ReplaceAll(body, "@ASMPATH", asmPath)
+			if strings.Contains(body, "//@TESTMAIN_BEGIN") {
+				a, b := strings.Index(body, "//@TESTMAIN_BEGIN"), strings.Index(body, "//@TESTMAIN_END")
+				if hasTestMain[f.Prov] {
+					body = body[:a] + body[b+len("//@TESTMAIN_END"):]
+				} else {
+					hasTestMain[f.Prov] = true
+					p.Features["testmain"] = true
+				}
+			}
+			return body
+		}
+		for _, tok := range def.ldX {
+			name := expand("@"+tok, fi, f, "", f.Prov, f.Kind, nil, &p.Names, seen)
+			val := LdValues[(f.P[0]+len(ldflags))%len(LdValues)]
+			ldflags = append(ldflags, fmt.Sprintf("-X '%s.%s=%s'", provSym, name, val))
+			p.LdValuesUsed = append(p.LdValuesUsed, val)
+		}
+		if f.Prov != f.User {
+			useFile := fileName(user.Dir, fmt.Sprintf("use_%s.go", strings.ToLower(mk)))
+			p.Files[useFile] = subst(p.Files[useFile])
+		}
+		for name, content := range def.extraProv {
+			fn := expand(name, fi, f, "", f.Prov, f.Kind, nil, &p.Names, seen)
+			p.Names = append(p.Names, NameInfo{Name: strings.TrimSuffix(strings.TrimSuffix(strings.TrimSuffix(fn, ".go"), ".s"), ".h"), Kind: "file", Pkg: f.Prov, Feat: f.Kind})
+			body := expand(content, fi, f, "", f.Prov, f.Kind, def.mayRemain, &p.Names, seen)
+			p.Files[fileName(prov.Dir, fn)] = subst(body)
 		}
 		// package-specific substitutions in the main files too
-		for _, fn := range []string{provFile} {
-			p.Files[fn] = strings.ReplaceAll(strings.ReplaceAll(p.Files[fn], "@PKGNAME", prov.Name), "@PKGPATH", s.ImportPath(f.Prov))
-		}
+		p.Files[provFile] = subst(p.Files[provFile])
 		calls = append(calls, call{pkg: f.User, fn: useFn, feat: fi})
 	}
 	// helpers in every used package
@@ -428,6 +490,7 @@ func Render(s Spec) *Program {
 	if len(s.Pkgs) >= 2 {
 		p.Features["multipkg"] = true
 	}
+	p.LdFlags = strings.Join(ldflags, " ")
 	return p
 }
 
@@ -476,6 +539,48 @@ func argStr(args []string, i int, def string) string {
 		return args[i]
 	}
 	return def
+}
+
+// sprint formats basic values without reflection (fmt would make every
+// argument's type "reach reflection", which changes what garble obfuscates).
+func sprint(args ...any) string {
+	var b strings.Builder
+	for _, a := range args {
+		switch v := a.(type) {
+		case string:
+			b.WriteString(v)
+		case int:
+			b.WriteString(strconv.Itoa(v))
+		case int32:
+			b.WriteString(strconv.FormatInt(int64(v), 10))
+		case int64:
+			b.WriteString(strconv.FormatInt(v, 10))
+		case uint64:
+			b.WriteString(strconv.FormatUint(v, 10))
+		case uint8:
+			b.WriteString(strconv.Itoa(int(v)))
+		case bool:
+			b.WriteString(strconv.FormatBool(v))
+		case float64:
+			b.WriteString(strconv.FormatFloat(v, 'g', -1, 64))
+		case []int:
+			b.WriteString("[")
+			for i, x := range v {
+				if i > 0 {
+					b.WriteString(" ")
+				}
+				b.WriteString(strconv.Itoa(x))
+			}
+			b.WriteString("]")
+		case []string:
+			b.WriteString("[" + strings.Join(v, " ") + "]")
+		case error:
+			b.WriteString(v.Error())
+		default:
+			panic("zq_util: sprint called with an unsupported type")
+		}
+	}
+	return b.String()
 }
 `
 
